@@ -141,7 +141,8 @@ static bool case_selected(const Desc& d, int c, const char* mode)
     if (d.has("case") && (int) d.i("case") != c)
         return false;
     Line l("Reset");
-    l.str("desc", std::string("mode=") + mode + ";seed=" + std::to_string(d.i("seed", 1)) + ";case=" + std::to_string(c) + (d.has("kfix") ? ";kfix=" + d.s("kfix") : ""));
+    l.str("desc", std::string("mode=") + mode + ";seed=" + std::to_string(d.i("seed", 1)) + ";case=" + std::to_string(c) + (d.has("kfix") ? ";kfix=" + d.s("kfix") : "") +
+                      (d.has("dec") ? ";dec=" + d.s("dec") : ""));
     out().put(l);
     return true;
 }
@@ -519,8 +520,20 @@ static void mode_davidson(const Desc& d)
             for (int j = 0; j < i; j++)
                 A(i, j) = A(j, i) = coupling * r.sym();
         }
+        if (d.i("dec", 0))
+        {
+            // exactly decoupled coordinate: the row/column of the largest diagonal entry is zero off the diagonal, so the unit vector
+            // is an exact eigenvector and the diagonal preconditioner divides by theta - a_ii = 0
+            int pmax = 0;
+            for (int i = 1; i < n; i++)
+                if (A(i, i) > A(pmax, pmax))
+                    pmax = i;
+            for (int j = 0; j < n; j++)
+                if (j != pmax)
+                    A(pmax, j) = A(j, pmax) = 0;
+        }
         const int nev = 1 + r.below(3);
-        int rule = rules[c % 4];
+        int rule = d.i("dec", 0) ? 3 : rules[c % 4];
         // SmallestMagn on a spectrum that straddles zero asks for INTERIOR eigenvalues, which the diagonal-preconditioned Davidson
         // iteration does not reliably deliver on the unchanged tree (recorded finding on a fixed case); the random profile keeps
         // SmallestMagn for one-signed spectra
